@@ -294,10 +294,12 @@ def _scale(F, Q, dt):
     nd = max(n11, n22, 1.0)
     u = EPS * (1 + nx) * nd
     q12 = max(n12, _n1(Q) * dt)           # magnitude of the upper-right block and of what it is summed from
+    rounding = u * q12 * max(n11, 1.0) + EPS * n * n11 * n12
     regime, term = _pade_truncation(X, n)
-    trunc = term * max(n11, 1.0) * TRUNC_MARGIN / MARGIN      # in units of MARGIN
-    return dict(bPhi=u + 1e-300, bQd=u * q12 * max(n11, 1.0) + EPS * n * n11 * n12 + trunc, nx=nx,
-                regime=regime)
+    # ... and the dropped term must actually matter (above 10 rounding units); otherwise it is not used
+    regime = bool(regime and term * max(n11, 1.0) > 10.0 * rounding)
+    trunc = term * max(n11, 1.0) * TRUNC_MARGIN / MARGIN if regime else 0.0      # in units of MARGIN
+    return dict(bPhi=u + 1e-300, bQd=rounding + trunc, nx=nx, regime=regime, rounding=rounding)
 
 
 def check_case(c, oracle='auto', verbose=False, stats=None):
@@ -405,6 +407,161 @@ def check_case(c, oracle='auto', verbose=False, stats=None):
     return fails, worst[0]
 
 
+
+# ---------------------------------------------------------------------------
+# the anchor filters._compute_error_propagation_matrices: assembly of the joint INS + sensor-parameter
+# dynamics F, noise input G, intensities q, and the call of compute_process_matrices
+
+PVA_COLS = ['lat', 'lon', 'alt', 'VN', 'VE', 'VD', 'roll', 'pitch', 'heading']
+ASM_TOL_SCALED = 1e-9        # assembly: |Qd - Qd_own|_ij <= tol sqrt(Qd_own_ii Qd_own_jj)  (same discretisation)
+
+
+def _gen_sensor(rng, mag, force_walk):
+    """public parameters of one EstimationModel: per-axis values, non-positive = disabled"""
+    style = 'full' if force_walk else rng.choice(['none', 'bias', 'full', 'random', 'random', 'random'])
+    if style == 'none':
+        return dict(bias_sd=None, noise=None, bias_walk=None, scale_misal_sd=None)
+    ax = lambda lo, hi: [10 ** rng.uniform(lo, hi) for _ in range(3)]
+    bias, noise, walk = ax(*mag['bias']), ax(*mag['noise']), ax(*mag['walk'])
+    sm = [[10 ** rng.uniform(*mag['sm']) for _ in range(3)] for _ in range(3)]
+    if style == 'bias':
+        noise, walk, sm = None, None, None
+    elif style == 'random':
+        bias = [b if rng.random() < 0.65 else 0.0 for b in bias]
+        walk = [w if (b > 0 and rng.random() < 0.6) else 0.0 for w, b in zip(walk, bias)]
+        noise = [v if rng.random() < 0.6 else (0.0 if rng.random() < 0.7 else -1.0) for v in noise]
+        sm = [[v if rng.random() < 0.3 else 0.0 for v in row] for row in sm] if rng.random() < 0.6 else None
+    else:
+        if rng.random() < 0.5:
+            sm = None
+    return dict(bias_sd=bias, noise=noise, bias_walk=walk, scale_misal_sd=sm)
+
+
+GYRO_MAG = dict(bias=(-6, -4), noise=(-6, -4), walk=(-9, -6), sm=(-4, -2.5))
+ACCEL_MAG = dict(bias=(-3, -1), noise=(-4, -2), walk=(-6, -3), sm=(-4, -2.5))
+
+
+def make_assembly_case(rng, idx):
+    both = rng.random() < 0.5                     # bias walk on both sensors, different intensities
+    return dict(idx=idx, kind='assembly', with_altitude=rng.random() < 0.7,
+                gyro_model=_gen_sensor(rng, GYRO_MAG, both), accel_model=_gen_sensor(rng, ACCEL_MAG, both),
+                pva=[rng.uniform(-80, 80), rng.uniform(-180, 180), rng.uniform(-100, 5000),
+                     rng.uniform(-50, 50), rng.uniform(-50, 50), rng.uniform(-5, 5),
+                     rng.uniform(-30, 30), rng.uniform(-30, 30), rng.uniform(-180, 180)],
+                gyro=[rng.uniform(-0.5, 0.5) for _ in range(3)],
+                accel=[rng.gauss(0, 3), rng.gauss(0, 3), -9.8 + rng.gauss(0, 3)],
+                dt=10 ** rng.uniform(-2, 1))
+
+
+def _par(spec, name, shape):
+    v = spec.get(name)
+    a = np.zeros(shape) if v is None else np.array(v, dtype=float).reshape(shape)
+    return np.where(a > 0, a, 0.0)
+
+
+def _sensor_states(spec):
+    """state layout from the PUBLIC parameters (docstring of EstimationModel): one bias state per axis with
+    bias_sd > 0, then one scale/misalignment state per (output, input) pair with scale_misal_sd > 0"""
+    bias, sm = _par(spec, 'bias_sd', (3,)), _par(spec, 'scale_misal_sd', (3, 3))
+    st = [('bias', a, None) for a in range(3) if bias[a] > 0]
+    st += [('sm', o, i) for o in range(3) for i in range(3) if sm[o, i] > 0]
+    return st
+
+
+def own_continuous(error_model, gspec, aspec, pva, gyro, accel):
+    """joint dynamics F and continuous noise density Qc, written from the models' public parameters:
+      d(ins)/dt = Fii ins + Fig e_gyro + Fia e_accel,
+      e = bias + (scale/misalignment) readings + white noise of root-PSD `noise`,
+      d(bias)/dt = white noise of root-PSD `bias_walk`, scale/misalignment constant."""
+    Fii, Fig, Fia = error_model.system_matrices(pva)
+    ni = Fii.shape[0]
+    gs, as_ = _sensor_states(gspec), _sensor_states(aspec)
+    n = ni + len(gs) + len(as_)
+    F = np.zeros((n, n))
+    Qc = np.zeros((n, n))
+    F[:ni, :ni] = Fii
+    for off, states, B, spec, rd in ((ni, gs, Fig, gspec, gyro), (ni + len(gs), as_, Fia, aspec, accel)):
+        walk = _par(spec, 'bias_walk', (3,))
+        noise = _par(spec, 'noise', (3,))
+        for k, (kind, o, i) in enumerate(states):
+            if kind == 'bias':
+                F[:ni, off + k] = B[:, o]
+                Qc[off + k, off + k] = walk[o] ** 2
+            else:
+                F[:ni, off + k] = B[:, o] * rd[i]
+        Qc[:ni, :ni] += (B * noise ** 2) @ B.T
+    return F, (Qc + Qc.T) / 2
+
+
+_GL = np.polynomial.legendre.leggauss(24)
+
+
+def own_quadrature(F, Qc, dt, panels=2):
+    """Phi = exp(F dt), Qd = int_0^dt exp(F s) Qc exp(F^T s) ds by Gauss-Legendre quadrature of the definition"""
+    n = len(F)
+    Qd = np.zeros((n, n))
+    for p in range(panels):
+        lo, hi = dt * p / panels, dt * (p + 1) / panels
+        for xk, wk in zip(*_GL):
+            E = sla.expm(F * (0.5 * (hi - lo) * xk + 0.5 * (hi + lo)))
+            Qd += (wk * 0.5 * (hi - lo)) * (E @ Qc @ E.T)
+    return sla.expm(F * dt), (Qd + Qd.T) / 2
+
+
+def check_assembly(c, verbose=False, stats=None):
+    import pandas as pd
+    from pyins import filters, kalman, inertial_sensor, error_model as em
+    fails, worst = [], [0.0]
+
+    def cmp(what, err, tol, **kw):
+        ratio = err / tol if tol > 0 else (0.0 if err == 0 else math.inf)
+        worst[0] = max(worst[0], ratio)
+        if stats is not None:
+            stats[what] = max(stats.get(what, 0.0), ratio if math.isfinite(ratio) else 1e300)
+        if verbose:
+            print(f"  {what}: error {err:.3e}  tolerance {tol:.3e}")
+        if not err <= tol:
+            fails.append((what, dict(error=err, tolerance=tol, **kw)))
+
+    dt = float(c['dt'])
+    pva = pd.Series([float(v) for v in c['pva']], index=PVA_COLS)
+    gyro, accel = np.array(c['gyro'], float), np.array(c['accel'], float)
+    emod = em.InsErrorModel(with_altitude=bool(c['with_altitude']))
+    try:
+        gm = inertial_sensor.EstimationModel(**c['gyro_model'])
+        am = inertial_sensor.EstimationModel(**c['accel_model'])
+        Phi, Qd = filters._compute_error_propagation_matrices(pva, gyro, accel, dt, emod, gm, am)
+        Phi, Qd = np.asarray(Phi, float), np.asarray(Qd, float)
+    except Exception as ex:
+        return [("_compute_error_propagation_matrices raised " + type(ex).__name__ + ": " + str(ex)[:200], {})], \
+            math.inf
+    F, Qc = own_continuous(emod, c['gyro_model'], c['accel_model'], pva, gyro, accel)
+    n = len(F)
+    if Phi.shape != (n, n) or Qd.shape != (n, n):
+        return [("assembly: state dimension differs from the models' public parameters",
+                 dict(shape=list(Phi.shape), expected=n))], math.inf
+    # (a) the assembly alone: same discretisation (the implementation's own) of the independently built F, Qc
+    Pv, Qv = kalman.compute_process_matrices(F, Qc, dt)
+    Pv, Qv = np.asarray(Pv, float), np.asarray(Qv, float)
+    # entry by entry: relative to sqrt(Qd_ii Qd_jj), plus ONE rounding unit of the discretisation (both sides run
+    # the same algorithm on inputs that differ by rounding; entries below that unit are not determined by it)
+    sc = _scale(F, Qc, dt)
+    d = np.sqrt(np.clip(np.diag(Qv), 0.0, None))
+    cmp("assembly: Qd differs from the discretisation of the continuous model built from the sensor models' "
+        "public parameters (entry by entry, relative to sqrt(Qd_ii Qd_jj))",
+        float((np.abs(Qd - Qv) / (ASM_TOL_SCALED * np.outer(d, d) + sc['rounding'] + 1e-300)).max()), 1.0)
+    cmp("assembly: Phi differs from the transition of the continuous model built from the public parameters",
+        float(np.abs(Phi - Pv).max()), ASM_TOL_SCALED * max(1.0, float(np.abs(Pv).max())))
+    # (b) against the quadrature of the definition (no Van Loan), with the rounding model of the random cases
+    if stats is not None and sc['regime']:
+        stats['_regime_cases'] = stats.get('_regime_cases', 0) + 1
+    Pq, Qq = own_quadrature(F, Qc, dt)
+    cmp("assembly: Phi != exp(F dt) of the own continuous model", float(np.abs(Phi - Pq).max()),
+        3.0 * MARGIN * sc['bPhi'])
+    cmp("assembly: Qd != Gauss-Legendre quadrature of exp(F s) Qc exp(F^T s) of the own continuous model",
+        float(np.abs(Qd - Qq).max()), 3.0 * MARGIN * sc['bQd'])
+    return fails, worst[0]
+
 # ---------------------------------------------------------------------------
 
 def _hexcase(c):
@@ -432,6 +589,20 @@ def numeric_statements(r, count, seed_off, nmax=24, exact_nmax=8):
     fails, worst, dist = [], 0.0, {}
     stats = {}
     for i in range(count):
+        if i % 5 == 4:
+            c = make_assembly_case(rng, i)
+            f, w = check_assembly(c, stats=stats)
+            worst = max(worst, w) if math.isfinite(w) else worst
+            gw = any(x and x > 0 for x in (c['gyro_model']['bias_walk'] or []))
+            aw = any(x and x > 0 for x in (c['accel_model']['bias_walk'] or []))
+            r.case(('assembly', c['with_altitude'], gw, aw, i),
+                   sample=dict(kind='assembly', gyro_model=c['gyro_model'], accel_model=c['accel_model'], dt=c['dt']))
+            for k in ('assembly', 'assembly walk:' + ('both' if gw and aw else 'gyro' if gw else 'accel' if aw else 'none'),
+                      'assembly altitude:' + str(bool(c['with_altitude']))):
+                dist[k] = dist.get(k, 0) + 1
+            for what, det in f:
+                fails.append((what, dict(key='C08-numeric', case=c, detail=det)))
+            continue
         c = make_case(rng, i, nmax)
         c['exact_nmax'] = exact_nmax
         f, w = check_case(c, stats=stats)
@@ -569,6 +740,15 @@ def replay(obj):
         print(f"C08 corpus witness {rep['witness'].get('name')}: Qd entry = {got!r}, exact = {exact!r}, "
               f"relative error {rel:.3e} -> " + ("still deviates" if still else "no longer deviates"))
         return 1 if still else 0
+    if rep['case'].get('kind') == 'assembly':
+        c = rep['case']
+        print(f"C08 replay (assembly): gyro_model={c['gyro_model']} accel_model={c['accel_model']} dt={c['dt']!r} "
+              f"with_altitude={c['with_altitude']}")
+        fails, worst = check_assembly(c, verbose=True)
+        for what, det in fails:
+            print("FAILS:", what, det)
+        print("still failing" if fails else "passes now")
+        return 1 if fails else 0
     c = _unhex(rep['case'])
     print(f"C08 replay: n={c['n']} F:{c.get('kind')} rank Q={c.get('rankQ')} dt={c['dt']!r} "
           f"sub-steps={c['parts']}")
